@@ -6,6 +6,7 @@
 #include <asl/File.h>
 #include "vp.h"
 #include "vsock.h"
+#include <string.h>
 using namespace asl;
 
 static byte g_reqbody[8]; static int g_reqlen; static char g_hv[4]; static char g_qv[2];
@@ -68,7 +69,16 @@ extern "C" void h_exchange(void)
 	if (g_kind == 5)
 	{
 		if (g_re == 0) g_re = g_resplen - 1;      // "bytes=b-0" is the library's spelling of the open-ended range b-
-		if (g_rb == g_re) { vp_reach(1); return; }  // single-byte ranges are outside putFile's interface (begin == end means "no range")
+		if (g_rb == g_re)      // single-byte range: the library may refuse it (416), but a 206 must carry exactly that byte
+		{
+			vp_assert(res.code() == 416 || res.code() == 206, "a single-byte range is answered with 206 or 416");
+			if (res.code() == 206) {
+				vp_assert(res.body().length() == 1 && g_rb < g_resplen && res.body()[0] == g_respbody[g_rb], "a 206 for [b,b] carries exactly that byte");
+				vp_assert((int)res.header("Content-Length") == 1, "Content-Length of a 206 for [b,b]");
+			}
+			vp_note(res.code()); vp_reach(1);
+			return;
+		}
 		if (g_re >= g_resplen || g_rb > g_re)     // not satisfiable: no partial content is claimed (the body of the 416 is not constrained)
 		{
 			vp_assert(res.code() == 416, "client observes 416, not partial content, for a range that reaches outside the file");
@@ -94,4 +104,70 @@ extern "C" void h_exchange(void)
 	}
 	vp_note(res.code());
 	vp_reach(1);
+}
+
+// kept-alive server connection: a raw client sends a request, waits for the response and sends a second request on the same
+// connection, then closes (p0, p1 = framing of the first / second: 0 no body, 1 Content-Length, 2 chunked); both handlers
+// observe exactly their own request and both responses are written in order.
+static int g_kn; static int g_kbodylen[2]; static byte g_kbody[2][4]; static char g_kq[2];
+struct KSrv : public HttpServer
+{
+	void serve(HttpRequest& req, HttpResponse& resp)
+	{
+		int i = g_kn++;
+		vp_assert(i < 2, "the handler ran more often than requests were sent");
+		if (i >= 2) return;
+		char q[2] = { g_kq[i], 0 };
+		vp_assert(req.path() == (i ? "/second" : "/first"), "handler observes the path of its own request");
+		vp_assert(req.query("k") == q, "handler observes the query of its own request");
+		vp_assert(req.body().length() == g_kbodylen[i], "handler observes the body length of its own request");
+		for (int k = 0; k < g_kbodylen[i] && k < req.body().length(); k++) vp_assert(req.body()[k] == g_kbody[i][k], "handler observes the body bytes of its own request");
+		char r[3] = { 'r', (char)('0' + i), 0 };
+		resp.put(String(r));
+	}
+};
+static int put(char* t, int n, const char* s) { while (*s) t[n++] = *s++; return n; }
+static char g_kreq[2][200]; static int g_kreqlen[2]; static int g_kstage;
+static void client_idle(int fd)
+{
+	// the client has nothing more to say until the server answered the request sent so far
+	byte tmp[4]; int sent = vp_sock_sent(fd, tmp, 0);
+	if (g_kstage == 1 && sent > 0) { vp_sock_feed(fd, g_kreq[1], g_kreqlen[1]); g_kstage = 2; }
+	else vp_sock_peer_close(fd);
+}
+extern "C" void h_keepalive(void)
+{
+	int fr[2] = { vp_param(0), vp_param(1) };
+	g_kn = 0;
+	for (int i = 0; i < 2; i++)
+	{
+		char* t = g_kreq[i]; int n = 0;
+		g_kbodylen[i] = fr[i] ? 3 : 0;
+		for (int k = 0; k < g_kbodylen[i]; k++) g_kbody[i][k] = nondet_u8();
+		g_kq[i] = (char)nondet_u8(); vp_assume(g_kq[i] >= 'a' && g_kq[i] <= 'z');
+		n = put(t, n, fr[i] ? "POST " : "GET "); n = put(t, n, i ? "/second?k=" : "/first?k="); t[n++] = g_kq[i];
+		n = put(t, n, " HTTP/1.1\r\nHost: h\r\nConnection: keep-alive\r\n");
+		if (fr[i] == 1) { n = put(t, n, "Content-Length: 3\r\n\r\n"); for (int k = 0; k < 3; k++) t[n++] = (char)g_kbody[i][k]; }
+		else if (fr[i] == 2) { n = put(t, n, "Transfer-Encoding: chunked\r\n\r\n2\r\n"); t[n++] = (char)g_kbody[i][0]; t[n++] = (char)g_kbody[i][1]; n = put(t, n, "\r\n1\r\n"); t[n++] = (char)g_kbody[i][2]; n = put(t, n, "\r\n0\r\n\r\n"); }
+		else n = put(t, n, "\r\n");
+		g_kreqlen[i] = n;
+	}
+	int fd = vp_sock_new();
+	vp_sock_feed(fd, g_kreq[0], g_kreqlen[0]); g_kstage = 1;
+	vp_sock_on_idle(fd, client_idle);
+	{
+		KSrv srv;
+		SocketServer* base = &srv;
+		Socket s(fd);
+		base->serve(s);
+	}
+	vp_assert(g_kn == 2, "both requests on the kept-alive connection were handled");
+	static byte out[1200]; int ol = vp_sock_sent(fd, out, 1200);
+	int nresp = 0, r0 = -1, r1 = -1;
+	for (int i = 0; i + 8 < ol; i++) if (!memcmp(out + i, "HTTP/1.1 ", 9)) nresp++;
+	for (int i = 0; i + 1 < ol; i++) { if (out[i] == 'r' && out[i + 1] == '0' && r0 < 0) r0 = i; if (out[i] == 'r' && out[i + 1] == '1' && r1 < 0) r1 = i; }
+	vp_assert(nresp == 2, "one response per request was written");
+	vp_assert(r0 >= 0 && r1 > r0, "the responses carry their own bodies, in request order");
+	vp_note(ol);
+	vp_reach(2);
 }
